@@ -10,8 +10,44 @@ CASES = [("index", n) for n in ("s232", "s31", "s4", "s1231", "s25")] + [("pairs
         [("reshape", n) for n in ("r1", "r2", "r3", "r4")] + [("views", n) for n in ("raw", "nested", "fixed", "hybrid", "dynamic", "nd_dyn", "nd_const", "nd_fixdim", "nd_bounded")]
 
 
+KIND_NAMES = ["fixed", "hybrid", "dynamic", "nested_arr", "nested_vec"] + [f"{s}_{b}" for s in ("cs", "fs", "hs", "ds", "ls") for b in ("fb", "hb", "db")] + ["dtype"]
+KIND_SHAPES = {0: [2, 3], 1: [1, 2, 3], 2: [1, 2, 1, 3], 3: [2, 1, 3, 1], 4: [6], 5: [2, 2, 2], 6: [3, 1]}
+
+
+def cast_nested_vec(case):
+    return case.get("name") == "nested_vec"
+
+
+def kinds_matrix(ck, tier):
+    """Every array kind (cast) x a menu of views with ct / rt arguments x compile-time shapes (drv_kinds, one binary per shape)."""
+    sids = [0, 1, 2, 4] if tier == "quick" else sorted(KIND_SHAPES)
+    drvs = vlib.build_drivers([dict(name="drv_kinds", flags=("-O0", f"-DSHAPE_ID={sid}"), tag=f"_s{sid}") for sid in sids])
+    n = 0
+    for sid, drv in zip(sids, drvs):
+        cases = [dict(id=sid * 100 + i + 1, name=nm_, shape=KIND_SHAPES[sid]) for i, nm_ in enumerate(KIND_NAMES)]
+        files = vlib.run_driver(drv, cases, ck.workdir, f"kinds_s{sid}", nproc=8)
+        mism, st = vlib.validate_traces("TraceOps", files)
+        ck.add_trace_stats(st, len(cases)); n += st["events"]
+        by_id = {c["id"]: c for c in cases}
+        for m in mism:
+            ev = m["event"]; exp = m["expect"]; got = ev.get("res", {})
+            if "op" not in ev:      # the whole case died
+                case = dict(by_id.get(ev.get("id"), {}), op="kinds")
+                case.pop("id", None)
+                ck.mismatch(canon(["kinds", case.get("name"), case.get("shape"), "crash"]), vlib.res_kind(exp, got), case, exp, got,
+                            what=f"array kind {case.get('name')} of shape {case.get('shape')}: the kind's cast / view menu died", driver="drv_kinds")
+                continue
+            case = {k: v for k, v in ev.items() if k not in ("res", "e", "id")}
+            kind = vlib.res_kind(exp, got)
+            ck.mismatch(canon([case.get("op"), case.get("cfg"), case.get("shapes"), case.get("args"), kind]), kind, case, exp, got,
+                        what=f"{case.get('op')} on array kind / argument kind {case.get('cfg')} of shape {case.get('shapes')}: {kind}", driver="drv_kinds")
+    ck.extra["kinds_matrix_events"] = n
+    return n
+
+
 def run(tier, seed):
     ck = Check("C09", tier, seed)
+    ck.preds["c09_cast_nested_vec"] = cast_nested_vec
     ck.add_mc(vlib.tlc_model_check("MC_Layout", "MC_Layout_quick"))
     ck.add_mc(vlib.tlc_model_check("MC_Broadcast", "MC_Broadcast_quick"))
     cases = [dict(id=i + 1, group=g, name=n) for i, (g, n) in enumerate(CASES)]
@@ -43,11 +79,15 @@ def run(tier, seed):
                 groups.setdefault(canon([e["op"], e["shapes"], e["args"]]), set()).add(canon({k: e["res"].get(k) for k in ("ok", "shape", "elems")}))
         ck.extra["value_groups" + tag] = len(groups)
         ck.extra["groups_with_disagreement" + tag] = sum(1 for v in groups.values() if len(v) > 1)
+    total += kinds_matrix(ck, tier)
     ck.nontrivial_count = total
     ck.rule = ("a common set of values (5 shapes, 6 shape pairs incl. incompatible ones, 4 reshape requests incl. an invalid one, one (2,3) array) runs through every container / static-knowledge kind: "
                "compile-time constant tuples, clipped integers, std::array (size_t and int), raw arrays, nmtools and utl static_vector, std::vector, utl::vector, utl::array, run-time tuples; mixed pairs "
                "(constant with dynamic, clipped with fixed, ...); arrays as raw, nested std::array, fixed_ndarray, hybrid_ndarray, dynamic_ndarray and four ndarray_t kinds with compile-time and run-time "
                "axis/shape arguments; builds: g++ -O0 with assertions, g++ -O2 -DNDEBUG, clang++ (thorough also NMTOOLS_DISABLE_STL); every result is validated by TLC against the one reference, "
+               "a kinds matrix (drv_kinds): one value per compile-time shape ((2,3), (1,2,3), (1,2,1,3), (6); thorough also (2,1,3,1), (2,2,2), (3,1)) cast to the legacy fixed / hybrid / dynamic classes, nested std::array, "
+               "the 15 ndarray_t shape x buffer kinds (constant / fixed / hybrid / dynamic / clipped shape x fixed / hybrid / dynamic buffer) and 7 element-type casts, each kind running 34 view events "
+               "(cast, flatten, squeeze, transpose, flip, expand_dims, reshape, moveaxis, atleast_nd, tile, repeat, roll, take, sum, cumsum, broadcast_to, concatenate, slice, add with compile-time and run-time arguments); "
                "a compile-time rejection (error type) counts as 'reports failure'; evaluations = validated events")
     ck.exhaustive = False
     ck.assumptions += ["the run-time container kinds additionally run the complete tables of C01 (8 kinds), C05 (5 encodings), C06 (6 kinds), C11 (6 leaf kinds), C19/C20 (object kinds): see those checks"]
